@@ -383,6 +383,36 @@ def implicit_reg_rule(chk):
                         guarded.add(cname)
                 if not any(("kRegMask" in c or "kMemMask" in c) for c in conds):
                     guarded |= {"kRegMask", "kMemMask"}
+    # merged signatures (`ax | m16` of fnstsw / fstsw): the fixed register belongs to the register alternative, the memory alternative
+    # takes any base - the memory-class comparison must exclude signatures that have a register alternative
+    merged = [r for r in t if r.get("_reg_mask") and (r["_flags"] & ev["kRegMask"]) and (r["_flags"] & ev["kMemMask"])]
+    if merged:
+        ok_m, where = False, None
+        for i in cond_roots:
+            owners = set()
+            for j in g.walk(i):
+                y = g.e(j)
+                if y is not None and y["k"] == "mcall" and y.get("cn") == "reg_mask" and y.get("obj"):
+                    r = g.root_ref(y["obj"])
+                    if r is not None:
+                        owners.add((g.e(r) or {}).get("name"))
+            if len(owners) < 2:
+                continue
+            j, conds = i, []
+            while j in par:
+                pj = g.e(par[j])
+                if pj is not None and pj["k"] == "s:IfStmt" and pj.get("cond") is not None and j != pj.get("cond") and j not in set(g.walk(pj["cond"])):
+                    conds.append(g.text(pj["cond"]))
+                j = par[j]
+            if any("kMemMask" in c for c in conds):
+                where = i
+                own = " ".join(g.text(i).split())
+                ok_m = ("kRegMask" in own and "ref" in own) or "ref.has_reg" in own or any(("kRegMask" in c and "ref" in c and "common" not in c) for c in conds)
+        chk.ob(R, "check_op_sig|merged-signatures", ok_m, loc=g.loc(where) if where is not None else "asmjit/x86/x86instapi.cpp:%d" % g.line,
+               detail="%d signature entries have a register AND a memory alternative with a fixed register (`ax | m16` of fnstsw / fstsw): the "
+                      "register belongs to the register alternative, but the memory-class comparison applies it to the base register of every "
+                      "memory operand - `fnstsw word ptr [rcx]` is refused although the database lists `fnstsw m16`" % len(merged),
+               key="implicitreg|merged")
     for cname, cnt in sorted(need.items()):
         chk.ob(R, "check_op_sig|%s" % cname, cname in guarded, loc="asmjit/x86/x86instapi.cpp:%d" % g.line,
                detail="%d signature entries of class %s fix a register, but check_op_sig() compares reg_mask() only for %s: an operand that uses "
